@@ -48,6 +48,85 @@ def lat_rad(t):
     return T.mul(T.sym("PHI"), D2R)
 
 
+def parallax_recipe(repo, rep):
+    """R-RECIPE (parallax_correction): the returned right ascension and declination are the rigorous topocentric formulae
+        tan(dalpha) = -rho cos phi' sin pi sin H / (cos delta - rho cos phi' sin pi cos H)
+        tan(delta') = (sin delta - rho sin phi' sin pi) cos(dalpha) / (cos delta - rho cos phi' sin pi cos H)
+    - the projection of the body's position seen from the observer, for which the displacement is bounded by the horizontal
+    parallax.  Compared as terms (polynomial normal form of the atan2 arguments, cross-multiplied)."""
+    from ..rules import D2R
+    rep.rule("R-RECIPE", "each path returns the published formula (term equality) or the stated value of the singular case")
+    q = "Earth.parallax_correction"
+    site = MOD + "." + q
+    fn = repo.func(MOD, q)
+    nm = [a_.arg for a_ in fn.args.args]
+    want_names = ["right_ascension", "declination", "latitude", "distance", "hour_angle"]
+    if nm[:5] != want_names:
+        rep.inconcl("R-RECIPE", site, "signature is not (right_ascension, declination, latitude, distance, hour_angle, ...)")
+        return
+    t = ret_term(repo, MOD, q, arg_terms={nm[0]: ("angle", T.sym("RA")), nm[1]: ("angle", T.sym("DEC")), nm[2]: ("angle", T.sym("LAT")),
+                                          nm[3]: T.sym("distance"), nm[4]: ("angle", T.sym("HA"))})
+    if t[0] != "tuple" or len(t) != 3 or t[1][0] != "angle" or t[2][0] != "angle":
+        rep.inconcl("R-RECIPE", site, "does not return a pair of Angles")
+        return
+    rc = [x for x in T.walk(t) if x[0] == "call" and x[1].endswith("rho_cosphi")]
+    rs = [x for x in T.walk(t) if x[0] == "call" and x[1].endswith("rho_sinphi")]
+    if len(set(rc)) != 1 or len(set(rs)) != 1:
+        rep.inconcl("R-RECIPE", site, "rho cos phi' / rho sin phi' are not each taken once from the ellipsoid routines")
+        return
+    RC, RS = rc[0], rs[0]
+    SP = T.mul(T.call("sin", T.mul(T.num(Fraction("8.794") / 3600), D2R)), T.power(T.sym("distance"), T.num(-1)))
+    H = T.mul(T.sym("HA"), D2R)
+    DE = T.mul(T.sym("DEC"), D2R)
+    den = T.sub(T.call("cos", DE), T.mul(RC, SP, T.call("cos", H)))
+    num_a = T.mul(T.num(-1), RC, SP, T.call("sin", H))
+    alg = Algebra(atomize=True)
+
+    def atan2_of(x):
+        """x == k * atan2(y, z) (+ rest): returns (y, z, rest) for the single atan2 at the top of x/d2r**-1"""
+        c, r = T.split_coeff(x)
+        parts = r[1:] if r[0] == "add" else (r,)
+        hits = []
+        rest = []
+        for p_ in parts:
+            cp, rp_ = T.split_coeff(p_)
+            fac = rp_[1:] if rp_[0] == "mul" else (rp_,)
+            at = [f for f in fac if f[0] == "call" and f[1] == "atan2" and len(f) == 4]
+            others = [f for f in fac if f not in at]
+            if len(at) == 1 and others == [T.power(D2R, T.num(-1))] and c * cp == 1:
+                hits.append(at[0])
+            else:
+                rest.append(T.mul(T.num(c), p_))
+        if len(hits) != 1:
+            return None
+        return hits[0][2], hits[0][3], T.add(*rest) if rest else T.ZERO
+    ra, de = atan2_of(t[1][1]), atan2_of(t[2][1])
+    if ra is None or de is None:
+        rep.inconcl("R-RECIPE", site, "the corrections are not of the form atan2(y, x): formula not compared")
+        return
+    try:
+        ok_ra = alg.equal(T.mul(ra[0], den), T.mul(num_a, ra[1])) and alg.equal(ra[2], T.sym("RA"))
+        # sign of the pair (y, x): x must be the same positive multiple; compare x directly up to the common factor used for y
+        ok_ra = ok_ra and alg.equal(ra[1], den)
+        da = T.call("atan2", ra[0], ra[1])
+        num_d = T.mul(T.sub(T.call("sin", DE), T.mul(RS, SP)), T.call("cos", da))
+        ok_de = alg.equal(T.mul(de[0], den), T.mul(num_d, de[1])) and alg.equal(de[1], den) and alg.equal(de[2], T.ZERO)
+    except Exception as e:
+        rep.inconcl("R-RECIPE", site, "formula comparison failed: %s" % e)
+        return
+    if ok_ra:
+        rep.ok("R-RECIPE", site + ":ra", "dalpha = atan2(-rho cos phi' sin pi sin H, cos delta - rho cos phi' sin pi cos H)", obligation=True)
+    else:
+        rep.violation("R-RECIPE", site, "parallax-ra", "the right-ascension correction is not atan2(-rho cos phi' sin pi sin H, cos delta - rho cos phi' sin pi cos H): "
+                      + T.show(T.call("atan2", ra[0], ra[1]))[:140], obligation=True)
+    if ok_de:
+        rep.ok("R-RECIPE", site + ":dec", "delta' = atan2((sin delta - rho sin phi' sin pi) cos(dalpha), cos delta - rho cos phi' sin pi cos H)", obligation=True)
+    else:
+        rep.violation("R-RECIPE", site, "parallax-dec", "the topocentric declination is not atan2((sin delta - rho sin phi' sin pi) cos(dalpha), cos delta - rho cos phi' sin pi cos H) - "
+                      "cos(dalpha) must multiply the whole numerator; otherwise the body is displaced by more than the horizontal parallax far from the meridian: "
+                      + T.show(T.call("atan2", de[0], de[1]))[:160], obligation=True)
+
+
 def andoyer(repo, rep, d, alg0):
     """R-RECIPE: every value-returning path of Earth.distance is either the coincident-point guard (s == 0 -> 0) or the
     Andoyer-Lambert formula d (1 + f (H1 sin^2F cos^2G - H2 cos^2F sin^2G)) with its own s, c, omega, R - no shortcut path
@@ -251,6 +330,7 @@ def run(repo, rep, tier):
             rep.ok("R-E4-ID", MOD + "." + q, "sin(pi) = sin(8.794 arcsec)/distance at %d site(s)" % len(hits), obligation=True)
         else:
             rep.violation("R-E4-ID", MOD + "." + q, "parallax-constant", "horizontal parallax is not sin(8.794 arcsec)/distance", obligation=True)
+    parallax_recipe(repo, rep)
     fam = [(MOD, "Earth." + q) for q in ("rho", "rho_sinphi", "rho_cosphi", "rp", "linear_velocity", "rm", "distance", "parallax_correction", "parallax_ecliptical")] + \
           [(MOD, "Ellipsoid.b"), (MOD, "Ellipsoid.e")]
     units.check_functions(repo, rep, fam)
